@@ -206,4 +206,196 @@ theorem foldl_linkStep_noId (its : List (VehData × Option TripID)) (acc : Acc) 
       | none => simp [List.filter_cons, hid, linkIdx, ht, List.length_append]
       | some t => simp [List.filter_cons, hid, linkIdx, ht, List.length_append]
 
+/-! ### link resolution in terms of the items -/
+
+theorem filterMap_linkIdx_filter_trip (Z : List ((VehData × Option TripID) × Nat)) (t : TripID) :
+    (Z.filterMap linkIdx).filter (fun p => p.1 == t)
+      = (Z.filter fun p => p.1.2 == some t).map fun p => (t, p.2) := by
+  induction Z with
+  | nil => rfl
+  | cons z r ih =>
+    cases hz : z.1.2 with
+    | none => simp [List.filterMap_cons, linkIdx, hz, List.filter_cons, ih]
+    | some t' =>
+      by_cases h : t' = t
+      · subst h; simp [List.filterMap_cons, linkIdx, hz, List.filter_cons, ih]
+      · simp [List.filterMap_cons, linkIdx, hz, List.filter_cons, ih, h]
+
+theorem filterMap_linkIdx_filter_idx (Z : List ((VehData × Option TripID) × Nat)) (i : Nat) :
+    (Z.filterMap linkIdx).filter (fun p => p.2 == i) = (Z.filter fun p => p.2 == i).filterMap linkIdx := by
+  induction Z with
+  | nil => rfl
+  | cons z r ih =>
+    cases hz : z.1.2 with
+    | none => by_cases h : z.2 = i <;> simp [List.filterMap_cons, linkIdx, hz, List.filter_cons, ih, h]
+    | some t' => by_cases h : z.2 = i <;> simp [List.filterMap_cons, linkIdx, hz, List.filter_cons, ih, h]
+
+theorem zipIdx_filter_idx {α} (l : List α) (n i : Nat) :
+    (l.zipIdx n).filter (fun p => p.2 == i) = if n ≤ i then (l[i - n]?).toList.map (fun x => (x, i)) else [] := by
+  induction l generalizing n with
+  | nil => simp
+  | cons x r ih =>
+    simp only [List.zipIdx_cons, List.filter_cons]
+    by_cases h : n = i
+    · subst h
+      simp only [beq_self_eq_true, if_true, Nat.le_refl, Nat.sub_self, List.getElem?_cons_zero, Option.toList_some, List.map_cons, List.map_nil]
+      rw [ih]
+      have : ¬ n + 1 ≤ n := by omega
+      simp [this]
+    · have hb : (n == i) = false := by simpa using h
+      simp only [hb, Bool.false_eq_true, if_false]
+      rw [ih]
+      by_cases hle : n + 1 ≤ i
+      · have hle' : n ≤ i := by omega
+        have : i - n = (i - (n + 1)) + 1 := by omega
+        simp only [hle, hle', if_true, this, List.getElem?_cons_succ]
+      · have hle' : ¬ n ≤ i := by omega
+        simp [hle, hle']
+
+/-- the state reached from the empty one: positional links are the id-less items' own trips -/
+theorem tripOfNoId_items (its : List (VehData × Option TripID)) (i : Nat) :
+    tripOfNoId (its.foldl linkStep {}) i = (idless its)[i]?.bind (·.2) := by
+  unfold tripOfNoId
+  have h := (foldl_linkStep_noId its {}).2
+  simp only [List.nil_append] at h
+  have h0 : ({} : Acc).noId.length = 0 := rfl
+  rw [h, h0, filterMap_linkIdx_filter_idx, zipIdx_filter_idx]
+  simp only [Nat.zero_le, if_true, Nat.sub_zero]
+  cases hi : (idless its)[i]? with
+  | none => rfl
+  | some it => cases ht : it.2 <;> simp [linkIdx, ht]
+
+theorem noId_items (its : List (VehData × Option TripID)) :
+    (its.foldl linkStep {}).noId = (idless its).map (·.1) := by
+  have h := (foldl_linkStep_noId its {}).1
+  simpa using h
+
+/-- the id-less vehicle a trip's (last) positional link leads to -/
+theorem noIdLink_items (its : List (VehData × Option TripID)) (t : TripID) :
+    ((noIdLinkOf (its.foldl linkStep {}) t).bind fun i => (its.foldl linkStep {}).noId[i]?)
+      = (((idless its).filter fun it => it.2 == some t).getLast?).map (·.1) := by
+  unfold noIdLinkOf
+  have h := (foldl_linkStep_noId its {}).2
+  simp only [List.nil_append] at h
+  have h0 : ({} : Acc).noId.length = 0 := rfl
+  rw [h, h0, noId_items, filterMap_linkIdx_filter_trip, List.getLast?_map]
+  simp only [Option.map_map]
+  -- the zipped list filtered on the item, projected back, is the filtered list
+  have hfst : (((idless its).zipIdx 0).filter fun p => p.1.2 == some t).map (·.1)
+      = (idless its).filter fun it => it.2 == some t := by
+    have := List.filter_map (f := fun p : (VehData × Option TripID) × Nat => p.1) (p := fun it : VehData × Option TripID => it.2 == some t)
+      (l := (idless its).zipIdx 0)
+    rw [List.zipIdx_map_fst] at this
+    rw [this]; rfl
+  rw [← hfst, List.getLast?_map]
+  cases hl : (((idless its).zipIdx 0).filter fun p => p.1.2 == some t).getLast? with
+  | none => rfl
+  | some p =>
+    have hmem : p ∈ (idless its).zipIdx 0 := (List.mem_filter.mp (List.mem_of_getLast? hl)).1
+    have hget : (idless its)[p.2]? = some p.1 := List.mem_zipIdx_iff_getElem?.mp hmem
+    simp [List.getElem?_map, hget]
+
+/-! ### link resolution of the merge loop's final state -/
+
+theorem tripVehicle_congr (a b : Acc) (h : LinkEq a b) (hv : a.vehicles = b.vehicles) (t : TripID) :
+    tripVehicle a t = tripVehicle b t := by
+  obtain ⟨h1, _, h3, h4⟩ := h
+  simp only [tripVehicle, noIdLinkOf, h1, h3, h4, hv]
+
+theorem tripOfNoId_congr (a b : Acc) (h : LinkEq a b) (i : Nat) : tripOfNoId a i = tripOfNoId b i := by
+  simp only [tripOfNoId, h.2.2.2]
+
+/-- **what a trip's vehicle reference reaches**: the entry of the identified vehicle the (last)
+    item links the trip to, otherwise the id-less vehicle of the trip's (last) id-less item -/
+theorem tripVehicle_items (ext : Ext) (es : List (Entity × Bool)) (t : TripID) :
+    tripVehicle (runEntities ext es) t =
+      match (allItems ext es).reverse.findSome? (linkOfTrip t) with
+      | some vid => alookup vid (runEntities ext es).vehicles
+      | none => (((idless (allItems ext es)).filter fun it => it.2 == some t).getLast?).map (·.1) := by
+  have hl := runEntities_links ext es
+  have h1 : alookup t (runEntities ext es).tripToVeh = (allItems ext es).reverse.findSome? (linkOfTrip t) := by
+    rw [hl.1, foldl_linkStep_t2v]; simp [alookup]
+  unfold tripVehicle
+  rw [h1]
+  cases (allItems ext es).reverse.findSome? (linkOfTrip t) with
+  | some vid => rfl
+  | none =>
+    simp only
+    have := noIdLink_items (allItems ext es) t
+    rw [← this]
+    simp only [noIdLinkOf, hl.2.2.1, hl.2.2.2]
+
+/-- the trip an identified vehicle's reference names -/
+theorem vehToTrip_items (ext : Ext) (es : List (Entity × Bool)) (vid : VehicleID) :
+    alookup vid (runEntities ext es).vehToTrip = (allItems ext es).reverse.findSome? (linkOfVeh vid) := by
+  rw [(runEntities_links ext es).2.1, foldl_linkStep_v2t]; simp [alookup]
+
+/-- the id-less vehicles of the result, with the trips their references name: one per id-less item,
+    in feed order, each with its own entity's trip -/
+theorem noId_out_items (ext : Ext) (es : List (Entity × Bool)) :
+    ((runEntities ext es).noId.mapIdx fun i v =>
+        ({ data := v, trip := (tripOfNoId (runEntities ext es) i).bind fun t => alookup t (runEntities ext es).trips } : VehicleOut))
+      = (idless (allItems ext es)).map fun it =>
+          ({ data := it.1, trip := it.2.bind fun t => alookup t (runEntities ext es).trips } : VehicleOut) := by
+  have hl := runEntities_links ext es
+  apply List.ext_getElem?
+  intro i
+  rw [List.getElem?_mapIdx, List.getElem?_map, hl.2.2.1, noId_items, List.getElem?_map]
+  rw [tripOfNoId_congr _ _ hl, tripOfNoId_items]
+  cases (idless (allItems ext es))[i]? with
+  | none => rfl
+  | some it => simp
+
+/-! ### permutations -/
+
+theorem findSome?_perm_of_const {α β} (f : α → Option β) (l l' : List α) (hp : l'.Perm l)
+    (hc : ∀ a ∈ l, ∀ b ∈ l, ∀ x y, f a = some x → f b = some y → x = y) :
+    l'.findSome? f = l.findSome? f := by
+  cases h : l.findSome? f with
+  | none =>
+    rw [List.findSome?_eq_none_iff] at h ⊢
+    intro x hx; exact h x (hp.subset hx)
+  | some x =>
+    obtain ⟨a, ha, hfa⟩ := List.exists_of_findSome?_eq_some h
+    have hsome : (l'.findSome? f).isSome := by
+      rw [List.findSome?_isSome_iff]; exact ⟨a, hp.symm.subset ha, by simp [hfa]⟩
+    cases h' : l'.findSome? f with
+    | none => simp [h'] at hsome
+    | some y =>
+      obtain ⟨b, hb, hfb⟩ := List.exists_of_findSome?_eq_some h'
+      rw [hc a ha b (hp.subset hb) x y hfa hfb]
+
+theorem perm_eq_of_length_le_one {α} (l l' : List α) (hp : l'.Perm l) (h : l.length ≤ 1) : l' = l := by
+  match l, l', hp, h with
+  | [], l', hp, _ => exact List.Perm.eq_nil hp
+  | [a], l', hp, _ => exact List.perm_singleton.mp hp
+  | _ :: _ :: _, _, _, h => simp at h
+
+/-- **without conflicting associations**: all items that associate a trip name the same vehicle (the
+    same identifier, or one single id-less vehicle), and all items of one identified vehicle that
+    associate it name the same trip -/
+def FunctionalLinks (its : List (VehData × Option TripID)) : Prop :=
+  (∀ t, ∀ a ∈ its, ∀ b ∈ its, ∀ x y, linkOfTrip t a = some x → linkOfTrip t b = some y → x = y) ∧
+  (∀ t, ((idless its).filter fun it => it.2 == some t).length ≤ 1) ∧
+  (∀ vid, ∀ a ∈ its, ∀ b ∈ its, ∀ x y, linkOfVeh vid a = some x → linkOfVeh vid b = some y → x = y)
+
+theorem allItems_perm (ext : Ext) (es es' : List (Entity × Bool)) (hp : es'.Perm es) :
+    (allItems ext es').Perm (allItems ext es) := (hp.filter _).filterMap _
+
+theorem findSome?_of_mem_const {α β} (f : α → Option β) (l : List α) (a : α) (x : β) (ha : a ∈ l) (hfa : f a = some x)
+    (hc : ∀ a ∈ l, ∀ b ∈ l, ∀ x y, f a = some x → f b = some y → x = y) : l.findSome? f = some x := by
+  have hsome : (l.findSome? f).isSome := by
+    rw [List.findSome?_isSome_iff]; exact ⟨a, ha, by simp [hfa]⟩
+  cases h : l.findSome? f with
+  | none => simp [h] at hsome
+  | some y =>
+    obtain ⟨b, hb, hfb⟩ := List.exists_of_findSome?_eq_some h
+    rw [hc b hb a ha y x hfb hfa]
+
+theorem eq_singleton_of_mem_of_length_le_one {α} (l : List α) (a : α) (ha : a ∈ l) (h : l.length ≤ 1) : l = [a] := by
+  match l, ha, h with
+  | [x], ha, _ => simp only [List.mem_singleton] at ha; rw [ha]
+  | [], ha, _ => simp at ha
+  | _ :: _ :: _, _, h => simp at h
+
 end Gtfs.Rt
